@@ -306,5 +306,24 @@ func (r *Report) Violations() []string {
 	return out
 }
 
+// NewViolations returns "key @pos" of violated obligations that are not listed
+// as known findings.
+func (r *Report) NewViolations() []string {
+	fs, _ := loadFindings()
+	known := map[string]bool{}
+	for _, f := range fs {
+		if f.Property == r.Property && f.Status == "known" {
+			known[f.Key] = true
+		}
+	}
+	var out []string
+	for _, o := range r.Obs {
+		if o.Status == Violation && !known[o.Key] {
+			out = append(out, o.Key+" @"+o.Pos)
+		}
+	}
+	return out
+}
+
 // Join is strings.Join for brevity in rules.
 func Join(xs []string) string { return strings.Join(xs, ", ") }
